@@ -58,7 +58,7 @@ const TOMB: Tomb = Tomb { state: 0xA5, key: 0 };
 
 pub fn noop_barrier<T: ?Sized>(_val: &T) {}
 
-// @gen macro=zeroize_h name=c19_zeroize props=C19 quick=u8,U0,0,0u8;u8,U1,1,0u8;u8,U2,2,0u8;u8,U3,3,0u8;u8,U5,5,0u8;u8,U6,6,0u8;u8,U7,7,0u8;u8,U8,8,0u8;u8,U13,13,0u8;u8,U16,16,0u8;u8,U31,31,0u8;u8,U32,32,0u8;u8,U33,33,0u8;u8,U48,48,0u8;u8,U63,63,0u8;u8,U64,64,0u8;u64,U4,4,0u64;u64,U9,9,0u64;Two,U3,3,TZ;Two,U5,5,TZ;Two,U6,6,TZ;Two,U10,10,TZ;Two,U15,15,TZ;Tomb,U1,1,TOMB;Tomb,U4,4,TOMB;Tomb,U7,7,TOMB thorough=u8,U4,4,0u8;u8,U9,9,0u8;u8,U10,10,0u8;u8,U11,11,0u8;u8,U12,12,0u8;u8,U14,14,0u8;u8,U15,15,0u8;u8,U17,17,0u8;u8,U24,24,0u8;u8,U40,40,0u8;u8,U47,47,0u8;u8,U56,56,0u8;u8,U65,65,0u8;u8,U96,96,0u8;u8,U127,127,0u8;u8,U128,128,0u8;Two,U7,7,TZ;Two,U12,12,TZ;Two,U21,21,TZ;u64,U17,17,0u64
+// @gen macro=zeroize_h name=c19_zeroize props=C19 quick=u8,U0,0,0u8;u8,U1,1,0u8;u8,U2,2,0u8;u8,U3,3,0u8;u8,U5,5,0u8;u8,U6,6,0u8;u8,U7,7,0u8;u8,U8,8,0u8;u8,U13,13,0u8;u8,U16,16,0u8;u8,U31,31,0u8;u8,U32,32,0u8;u8,U33,33,0u8;u8,U48,48,0u8;u8,U63,63,0u8;u8,U64,64,0u8;u64,U4,4,0u64;u64,U9,9,0u64;Two,U3,3,TZ;Two,U5,5,TZ;Two,U6,6,TZ;Two,U10,10,TZ;Two,U15,15,TZ;Tomb,U1,1,TOMB;Tomb,U4,4,TOMB;Tomb,U7,7,TOMB thorough=u8,U4,4,0u8;u8,U9,9,0u8;u8,U10,10,0u8;u8,U11,11,0u8;u8,U12,12,0u8;u8,U14,14,0u8;u8,U15,15,0u8;u8,U17,17,0u8;u8,U24,24,0u8;u8,U40,40,0u8;u8,U47,47,0u8;u8,U56,56,0u8;u8,U65,65,0u8;Two,U7,7,TZ;Two,U12,12,TZ;Two,U21,21,TZ;u64,U17,17,0u64
 macro_rules! zeroize_h {
     ($name:ident, $T:ty, $N:ty, $n:expr, $zero:expr) => {
         #[kani::proof]
@@ -103,7 +103,7 @@ macro_rules! zeroize_nested {
 }
 
 // large lengths (the storage recursion is nine levels deep at 512; 1023 alone takes CBMC 700 s and 1024 exceeds any sensible budget - all N are engine V, unit layout)
-// @gen macro=zeroize_big name=c19_zeroize_big props=C19 quick=U256,256;U257,257 thorough=U255,255;U511,511;U512,512
+// @gen macro=zeroize_big name=c19_zeroize_big props=C19 quick=U256,256;U257,257 thorough=U96,96;U127,127;U128,128;U255,255;U511,511;U512,512
 macro_rules! zeroize_big {
     ($name:ident, $N:ty, $n:expr) => {
         #[kani::proof]
